@@ -216,6 +216,9 @@ CORPUS_QUERIES = [
     'NOT (a b)', '-(a b) c', 'NOT (a OR b)', 'NOT (a AND b)', 'c NOT (a b)', 'f:(NOT (a b))', '-(a b c)',
     'NOT (a b) AND NOT (c OR d)', 'a:(NOT b:x)', 'a:(-b:x)', 'a:(NOT (b:x c:y))', 'author:(NOT name:x)',
     'author:(book:(NOT title:y))', 'NOT author.name:x', 'author:(name:x AND NOT name:y)',
+    # OR and AND on the same level below a negation / a group / a field (the mix is refused wherever it stands)
+    'NOT (a OR b AND c)', '-(a b AND c)', '-(a OR b c)', 'x AND NOT (a OR b AND c)', 'x OR -(a b AND c)',
+    'f:(a OR b AND c)', '(a OR b AND c)^2', 'NOT (a OR (b AND c))', '-(a (b AND c))',
 ]
 
 
@@ -567,6 +570,29 @@ def run_sessions(prop, res, model_ok, sessions, T, oracle, canary=True, shard=40
                 continue
             outcome = run(b, tree)
             fresh = run(builder(cfg), tree)
+            # a builder built with the OTHER default operator / default field / match_word_as_phrase, used once,
+            # then re-configured through its public attributes: it must translate like one built with cfg
+            if ci < 2:
+                from luqum.elasticsearch import ElasticsearchQueryBuilder as _B
+                want = {"default_operator": cfg.get("default_operator", _B.SHOULD),
+                        "default_field": cfg.get("default_field", "text"),
+                        "match_word_as_phrase": cfg.get("match_word_as_phrase", False)}
+                other = dict(cfg, default_operator=_B.MUST if want["default_operator"] == _B.SHOULD else _B.SHOULD,
+                             default_field=want["default_field"] + "_", match_word_as_phrase=not want["match_word_as_phrase"])
+                try:
+                    rb = builder(other)
+                    run(rb, tree)
+                    for k_, v_ in want.items():
+                        setattr(rb, k_, v_)
+                    again_ = run(rb, tree)
+                    if again_ != fresh:
+                        res.failures.append(({"config": repr(cfg), "tree": desc,
+                                              "why": "a builder re-configured after construction (default_operator, "
+                                                     "default_field, match_word_as_phrase set as attributes after one "
+                                                     "call) translates differently from one built with these settings",
+                                              "reconfigured": repr(again_)[:800], "fresh": repr(fresh)[:800]}, None))
+                except lib.Unmodelled:
+                    pass
             if lib.g_item(tree) != before:
                 res.notes.append("input tree modified by the builder: %s" % desc[:300])
             if first is None:
